@@ -293,11 +293,20 @@ func runC09(r *ev.Run) {
 			c09Image(r, dir, fmt.Sprintf("c%d-i%d", ci, ii), cfg, &f, desc, mustSucceed, im.k, opsS, nil)
 			// the same pair seen by a handle that was opened (and used) before the writer started
 			c09Image(r, dir, fmt.Sprintf("c%d-l%d", ci, ii), cfg, &f, desc, mustSucceed, im.k, opsS, b0)
+			// ... opened before but never used (only the header is remembered), or used for the table list only
+			c09ImageKind(r, dir, fmt.Sprintf("c%d-o%d", ci, ii), cfg, &f, desc, mustSucceed, im.k, opsS, b0, "opened-only")
+			c09ImageKind(r, dir, fmt.Sprintf("c%d-s%d", ci, ii), cfg, &f, desc, mustSucceed, im.k, opsS, b0, "schema-only")
 		})
 	}
 }
 
 func c09Image(r *ev.Run, dir, name string, cfg c09Config, f *c09Files, desc string, mustSucceed bool, k int, opsS []string, before []byte) {
+	c09ImageKind(r, dir, name, cfg, f, desc, mustSucceed, k, opsS, before, "long-lived")
+}
+
+// kind (with before != nil): what the handle did before the writer started: "long-lived" read everything,
+// "opened-only" nothing (Open remembers the header), "schema-only" listed the tables
+func c09ImageKind(r *ev.Run, dir, name string, cfg c09Config, f *c09Files, desc string, mustSucceed bool, k int, opsS []string, before []byte, kind string) {
 	// the journal is found by name: vary the database file's name (extension, dots, none)
 	exts := []string{".sqlite", ".db", "", ".a.b", "-journal.sqlite", ".SQLITE", ".sqlite3"}
 	ext := exts[(k+len(name))%len(exts)]
@@ -313,7 +322,7 @@ func c09Image(r *ev.Run, dir, name string, cfg c09Config, f *c09Files, desc stri
 	handle := "fresh"
 	if before != nil {
 		// a long-lived handle: opened and read on the state before the transaction
-		handle = "long-lived"
+		handle = kind
 		os.WriteFile(orig, before, 0o644)
 		var err error
 		long, err = OpenEnv(orig)
@@ -322,9 +331,21 @@ func c09Image(r *ev.Run, dir, name string, cfg c09Config, f *c09Files, desc stri
 			return
 		}
 		defer long.H.Close()
-		if _, err := LittleDump(long.H, long.D); err != nil {
-			r.Harness("C09 read before: %v", err)
-			return
+		switch kind {
+		case "long-lived":
+			if _, err := LittleDump(long.H, long.D); err != nil {
+				r.Harness("C09 read before: %v", err)
+				return
+			}
+		case "schema-only":
+			if err := long.D.RLock(); err == nil {
+				_, err = long.D.Tables()
+				long.D.RUnlock()
+				if err != nil {
+					r.Harness("C09 tables before: %v", err)
+					return
+				}
+			}
 		}
 		// the writer's file operations happen in place (same inode)
 		fh, err := os.OpenFile(orig, os.O_WRONLY, 0)
